@@ -392,6 +392,8 @@ impl TypedStmt {
         env: &mut Env<Vec<GateIndex>>,
         circuit: &mut CircuitBuilder,
     ) -> Vec<GateIndex> {
+        #[cfg(feature = "verif_hooks")]
+        crate::verif_hooks::yield_point("compile::stmt");
         match &self.inner {
             StmtEnum::Let(pattern, _, binding) => {
                 let binding = binding.compile(prg, env, circuit);
@@ -660,6 +662,8 @@ impl TypedExpr {
         env: &mut Env<Vec<GateIndex>>,
         circuit: &mut CircuitBuilder,
     ) -> Vec<GateIndex> {
+        #[cfg(feature = "verif_hooks")]
+        crate::verif_hooks::yield_point("compile::expr");
         let meta = self.meta;
         let ty = &self.ty;
         match &self.inner {
